@@ -197,6 +197,21 @@ def _gen_common(rng, tier, routes, **treekw):
     }
 
 
+def _with_alias(rng, case, p=0.05):
+    """Some directory payloads hold a directory symbolic link that is a second name for one of their directories
+    (content/latest -> season1; no cycle).  Judged under both readings of such a link, see oracles.both_link_readings."""
+    if rng.random() < p and gen.add_dir_alias(rng, case["tree"]):
+        case["remake"] = None
+    return case
+
+
+def _judge(check, case, *args):
+    if "+dir-alias" in case["tree"]["layout"]:
+        args[-1]["cases_with_directory_alias_link"] = 1
+        return oracles.both_link_readings(check, *args)
+    return check(*args)
+
+
 def _recorded_pl(raw):
     try:
         _, info, _ = oracles.decode_meta(raw)
@@ -217,11 +232,13 @@ class C01:
     required = ("pieces_compared", "cases_straddling", "cases_with_empty", "cases_cli", "cases_lib",
                 "cases_recreated_after_mutation_in_process")
     assumptions = ("reference BEP 3 hashing (ref/hashing.py) is correct",
-                   "payload trees are those generated (<= 41 files, depth <= 4, no symlinks)")
+                   "payload trees are those generated (<= 41 files, depth <= 4; no symbolic links except, in 5 % of the "
+                   "directory cases, a link that is a second name for a directory of the payload - judged under both "
+                   "readings: followed like the creators do, or not part of the payload)")
 
     @staticmethod
     def gen(rng, tier, i):
-        return _gen_common(rng, tier, ["TorrentFile", "TorrentFile", "cli1"])
+        return _with_alias(rng, _gen_common(rng, tier, ["TorrentFile", "TorrentFile", "cli1"]))
 
     @staticmethod
     def run(case, scratch):
@@ -237,7 +254,7 @@ class C01:
             viol.append(oracles.V("create-raised", exc=oc.excname(), tb=oc.tb[-1500:]))
             pl = 2 ** case["pl_exp"]
         else:
-            viol += oracles.check_v1(oc.raw, root, counters)
+            viol += _judge(oracles.check_v1, case, oc.raw, root, counters)
             pl = _recorded_pl(oc.raw) or 2 ** case["pl_exp"]
             if case["pl"] is not None and pl != 2 ** case["pl_exp"]:
                 viol.append(oracles.V("recorded-piece-length-differs", given=case["pl"], recorded=pl))
@@ -294,7 +311,7 @@ class C02:
 
     @staticmethod
     def gen(rng, tier, i):
-        return _gen_common(rng, tier, V2_ROUTES)
+        return _with_alias(rng, _gen_common(rng, tier, V2_ROUTES))
 
     @staticmethod
     def run(case, scratch):
@@ -317,7 +334,7 @@ class C02:
         if not oc.ok:
             viol.append(oracles.V("create-raised", exc=oc.excname(), tb=oc.tb[-1500:]))
         else:
-            viol += oracles.check_v2(oc.raw, root, counters)
+            viol += _judge(oracles.check_v2, case, oc.raw, root, counters)
             pl = _recorded_pl(oc.raw) or pl
         classes = sorted({_v2_file_class(f[1], pl) for f in case["tree"]["files"]})
         nontrivial = any(c != "bpow2/ppow2/full/" for c in classes)
@@ -355,7 +372,7 @@ class C03:
             c["tree"] = gen.gen_tree(rng, 2 ** c["pl_exp"], tier, layout="single")
         # the align option next to the hybrid version: a hybrid is aligned by construction, the option adds nothing
         c["align_option"] = rng.random() < 0.25
-        return c
+        return _with_alias(rng, c)
 
     @staticmethod
     def run(case, scratch):
@@ -374,7 +391,7 @@ class C03:
         if not oc.ok:
             viol.append(oracles.V("create-raised", exc=oc.excname(), tb=oc.tb[-1500:]))
         else:
-            viol += oracles.check_hybrid_views(oc.raw, root, counters)
+            viol += _judge(oracles.check_hybrid_views, case, oc.raw, root, counters)
             pl = _recorded_pl(oc.raw) or pl
         tree = case["tree"]
         if not tree["single"]:
